@@ -19,10 +19,13 @@ def c17(ctx: Ctx):
     ctx.assumptions = [
         "TLC and the CommunityModules Json/CSV modules",
         "spec/Api23.tla as the reading of 'the API a document describes' (normal form of operations, parameters, bodies, responses, "
-        "definitions, security; servers separately); titles, non-response descriptions, examples, tags, extensions, collectionFormat, "
-        "allowEmptyValue and response media types are not part of it; an operation without consumes accepts any media type; x-nullable on a "
+        "definitions, security; servers separately); titles, non-response descriptions, examples, tags, extensions "
+        "and response media types are not part of it; the serialisation of arrays (collectionFormat / style, explode) may be left unsaid by a "
+        "converter, what is said must be the original's; an operation without consumes accepts any media type; x-nullable on a "
         "parameter object may come out as schema.nullable or as the kept extension; a converter must leave the document it is given unchanged "
-        "(input marshalled again after the call = input marshalled before)",
+        "(input marshalled again after the call = input marshalled before; the caller's v2 document also after FromV3); the document "
+        "converted back is itself an OpenAPI 2 document of the fragment, so converting it to OpenAPI 3 again must validate and describe the same API "
+        "(judged when the first round trip is clean)",
         "harness/c17.go renders the TLC-built document as JSON text and projects json.Marshal of the library's documents back to "
         "tagged JSON mechanically; the document as the library re-marshals it (rd) is compared with the case by TLC",
         "universe = spec/V2Universe.tla: fixed skeleton (GET /a, POST /b, definitions.Pet) plus sets of feature atoms; schemes without "
@@ -77,7 +80,7 @@ def c17(ctx: Ctx):
     ctx.rule = ("cases = every OpenAPI 2 document Build(atoms) of spec/V2Universe.tla for the atom sets reachable in spec/Gen_C17.tla within "
                 "the tier's constants (all single features; all compatible pairs of core atoms; in thorough all pairs of level<=2 atoms, "
                 "keyword pairs and triples of core atoms) plus M seeded pseudo-random sets of 3-4 arbitrary atoms (computed by TLC from Seed = VERIF_SEED); each is unmarshalled, "
-                "converted to v3, validated (as returned and reloaded), converted back; evaluations = documents run; non-trivial = distinct "
+                "converted to v3, validated (as returned and reloaded), converted back, and that document converted to v3 and validated once more; evaluations = documents run; non-trivial = distinct "
                 "atom sets with at least one feature beyond the skeleton for which both conversions ran, so that TLC compared Api2(d), "
                 "Api3(ToV3 d) and Api2(FromV3(ToV3 d))")
     per = max(40, (nlines + 15) // 16)
